@@ -550,7 +550,8 @@ static int ev_ops(const char *op, const char *args) {
 	if (!strcmp(op, "peerclose")) { sscanf(args, "%d", &u); LOGEV("\"e\":\"peerclose\",\"u\":%d", u); __real_close(g_evo[u].wfd); g_evo[u].wfd = -1; return 1; }
 	if (!strcmp(op, "evreopen")) { /* close the pipe WITHOUT deleting the registration, open a new one: the descriptor numbers are reused, tp_udata keeps its state */
 		sscanf(args, "%d", &u); evo_t *o = &g_evo[u];
-		__real_close(o->rfd); __real_close(o->wfd);
+		/* the registered end goes first: closing it drops it from epoll before the other end can raise HUP/ERR on it */
+		if (o->kind == 0) { __real_close(o->rfd); __real_close(o->wfd); } else { __real_close(o->wfd); __real_close(o->rfd); }
 		int fds[2]; if (pipe(fds) != 0) abort();
 		fcntl(fds[0], F_SETFL, O_NONBLOCK); fcntl(fds[1], F_SETFL, O_NONBLOCK);
 		o->rfd = fds[0]; o->wfd = fds[1]; o->ud.ident = (uintptr_t)((o->kind == 0) ? fds[0] : fds[1]);
